@@ -595,8 +595,11 @@ def _encode_one_float_array(values, digits, reference):
         (fpzip_bytes, bits) = fpzip_compress(values)
         return ('float64', shape, bits, fpzip_bytes)
 
-    # Sometimes the test reveals that single precision fpzip is best
-    if nbytes == 4 and digits <= SINGLE_DIGITS:
+    # Sometimes the test reveals that single precision fpzip is best. This is
+    # so when the absolute precision requested is no finer than the spacing of
+    # single-precision values at the largest magnitude in the array.
+    max_value = max(-minval, maxval)
+    if nbytes == 4 and precision >= max_value * 10.**(-SINGLE_DIGITS):
         (fpzip_bytes, bits) = fpzip_compress(values, dtype=np.float32)
         return ('float32', shape, bits, fpzip_bytes)
 
